@@ -17,7 +17,7 @@ from mosaik import scheduler
 GUARD = "MOSAIK_VERIF_TRACE"
 _installed = False
 _orig = {}
-STATE = {"ctx": None}
+STATE = {"ctx": None, "broken": None}
 
 
 def tt(x):
@@ -44,10 +44,24 @@ def snap(world):
     return out
 
 
+def _broken(why):
+    """The code no longer has the shape the wrappers were written for (a renamed function, a changed
+    signature or attribute): stop recording.  The internal conformance is then reported as unavailable
+    (drift), it never disturbs the execution and never produces a verdict."""
+    STATE["broken"] = STATE.get("broken") or why
+    ctx = STATE["ctx"]
+    if ctx is not None:
+        ctx.internal = None
+
+
 def _log(rec):
     ctx = STATE["ctx"]
     if ctx is not None and ctx.internal is not None:
-        rec["post"] = snap(ctx.world)
+        try:
+            rec["post"] = snap(ctx.world)
+        except Exception as e:  # noqa: BLE001
+            _broken(f"snapshot failed: {type(e).__name__}: {e}")
+            return
         ctx.internal.append(rec)
 
 
@@ -58,9 +72,21 @@ def install():
     _installed = True
     st = {"starting": set(), "cursim": None, "reply": {}, "deferred": None}
 
+    def guarded(f):
+        def g(*a):
+            if STATE.get("broken"):
+                return
+            try:
+                f(*a)
+            except Exception as e:  # noqa: BLE001  a hook must never disturb the scheduler
+                _broken(f"hook {f.__name__} failed: {type(e).__name__}: {e}")
+        return g
+
     def wrap(name, after, before=None):
         orig = getattr(scheduler, name)
         _orig[name] = orig
+        after = guarded(after)
+        before = guarded(before) if before else None
         if asyncio.iscoroutinefunction(orig):
             async def w(*a, **k):
                 if before:
@@ -147,6 +173,12 @@ def install():
         if e is None and ctx is not None and ctx.world.use_cache:
             emit_post(ctx.world)
 
+    names = ("sim_process", "advance_progress", "next_step_settled", "get_max_advance", "step", "get_outputs",
+             "get_avg_progress", "prune_dataflow_cache")
+    missing = [n for n in names if not callable(getattr(scheduler, n, None))]
+    if missing:
+        STATE["broken"] = "mosaik.scheduler has no function(s) " + ", ".join(missing)
+        return False
     wrap("sim_process", after_process, before_process)
     wrap("advance_progress", after_adv)
     wrap("next_step_settled", after_settled)
@@ -160,6 +192,6 @@ def install():
 
 def attach(ctx):
     """Start recording internal sections for this execution."""
-    if install():
+    if install() and not STATE.get("broken"):
         ctx.internal = []
         STATE["ctx"] = ctx
